@@ -151,6 +151,25 @@ def normalize(t):
                 return ('bytes2int', y[1], 'little' if x[2] == 'big' else 'big')
         if x[0] == 'slice' and x[4] == -1 and x[2] is None and x[3] is None:
             return ('rev', x[1])
+        if x[0] == 'slice' and x[2] == 0 and x[2] is not False:
+            return ('slice', x[1], None, x[3], x[4])
+        if x[0] == 'slice' and x[4] is None and isinstance(x[1], tuple) and x[1] and x[1][0] == 'slice' and x[1][4] is None:
+            # slice of a slice with constant non-negative starts: x[a:b][c:d] = x[a+c : a+d] (b only matters if d is open/negative)
+            a, b = x[1][2] or 0, x[1][3]
+            c, d = x[2] or 0, x[3]
+            if isinstance(a, int) and isinstance(c, int) and a >= 0 and c >= 0 and (b is None or isinstance(b, int)) and (d is None or isinstance(d, int)):
+                lo = a + c
+                if d is None:
+                    hi = b
+                elif d >= 0:
+                    hi = a + d
+                    if isinstance(b, int) and b >= 0:
+                        hi = min(hi, b)
+                else:
+                    hi = d if b is None else (b + d if b < 0 else None)
+                    if hi is None:
+                        return None
+                return ('slice', x[1][1], lo if lo else None, hi, None)
         return None
     return rewrite(fold_arith(t), f)
 
